@@ -70,8 +70,9 @@ def frame_consistency(index: RepoIndex, rep, rule: str, geo: Geometry, pipe: Pip
     for o in geo.orients:
         T = ('T', P('py', 'px'), ('O', o))
         try:
-            B = gi.eval(geo_expr(area_e), {'T': T, 'area': A()})
-            rot = gi.eval(geo_expr(rot_e), {'T': T, 'area': A()})
+            omod = index.module(OBS)
+            B = gi.eval(geo_expr(area_e), {'T': T, 'area': A()}, omod)
+            rot = gi.eval(geo_expr(rot_e), {'T': T, 'area': A()}, omod)
         except AnalysisError as e:
             rep.violation(rule, OBS, 'from_visibility', fn.node.lineno, src(pipe.grid_def),
                           f'view area / rotation expression cannot be interpreted in the pose '
@@ -248,6 +249,10 @@ def run(index: RepoIndex, rep) -> None:
     rep.rule('C05.R5', 'each observation wrapper delegates to from_visibility with the '
              'like-named visibility function; fully_transparent is all-ones of the grid shape',
              floor=5)
+    rep.rule('C05.R6', 'observation and visibility functions are plain functions (no '
+             'memoising wrapper: states compare by value, Box contents excluded)', floor=9)
+    from .c03 import component_decorators
+    component_decorators(index, _Only(rep, ('observation', 'visibility')), 'C05.R6')
     frame_consistency(index, rep, 'C05.R1', geo, pipe, sub)
     padding(index, rep, 'C05.R2', sub)
     masking(index, rep, 'C05.R3', pipe)
@@ -344,3 +349,19 @@ def wrappers(index, rep, rule) -> None:
               ft.node.lineno, '; '.join(rets),
               'fully_transparent visibility is not an all-true array of the grid shape',
               'fully transparent')
+
+
+class _Only:
+    """forwards rule instances of the given registry roles only"""
+
+    def __init__(self, rep, roles):
+        self.rep, self.roles = rep, roles
+
+    def check(self, cond, rule, file, function, line, construct, reason, detail=''):
+        if any(detail.startswith(r) for r in self.roles) or not cond and \
+                any(reason.startswith(r) for r in self.roles):
+            return self.rep.check(cond, rule, file, function, line, construct, reason, detail)
+        return cond
+
+    def violation(self, *a, **k):
+        return self.rep.violation(*a, **k)
